@@ -171,6 +171,15 @@ def fixed_scope_programs():
     out.append((("block-scope-captured",), mk + "keep := [0]\n{\n    step := make_step(5)\n    keep[0] = fn() {\n        return step()\n    }\n}\nprint(keep[0]())\n", "5\n", "0"))
     out.append((("loop-scope-captured",), mk + "keep := []\nfor [i, v] in [1, 2] {\n    step := make_step(v)\n    keep += [fn() {\n        return step() * 10\n    }]\n}\n"
                 "print(keep[0]())\nprint(keep[1]())\n", "10\n20\n", "0"))
+    # a `fn name` statement declares `name` in the defining scope and nowhere else: a self-reference inside the body is that live
+    # binding (re-assigning the name redirects the recursion; the body can re-assign it too)
+    out.append((("fn-self-reference-live",), "calls := 0\nfn walk(n) {\n    if n == 0 {\n        return 0\n    }\n    return walk(n - 1)\n}\nold := walk\n"
+                "walk = fn(n) {\n    calls += 1\n    return old(n)\n}\nwalk(3)\nprint(calls)\n", "4\n", "0"))
+    out.append((("fn-self-assign",), "fn f() {\n    f = 1\n    return 0\n}\nf()\nprint(f)\n", "1\n", "0"))
+    out.append((("fn-self-reference-in-block",), "{\n    fn step(n) {\n        if n == 0 {\n            return \"base of the old step\"\n        }\n        return step(n - 1)\n    }\n"
+                "    first := step\n    step = fn(n) {\n        return \"the new step\"\n    }\n    print(first(2))\n}\n", "the new step\n", "0"))
+    out.append((("fn-mutual-live",), "fn even(n) {\n    if n == 0 {\n        return true\n    }\n    return odd(n - 1)\n}\nfn odd(n) {\n    if n == 0 {\n        return false\n    }\n"
+                "    return even(n - 1)\n}\nprint(even(4))\nodd = fn(n) {\n    return \"patched\"\n}\nprint(even(4))\n", "true\npatched\n", "0"))
     return out
 
 
